@@ -1,6 +1,6 @@
 from props import sched_common
 
-THEOREMS = []
+THEOREMS = ["Dispenso.Sched." + t for t in ['C08_accounting', 'C08_queue_bookkeeping', 'C08_quiescent_zero', 'C08_quiesce_event', 'C08_resize_end_settled']]
 # (flavour, scenarios in the quick tier): 0 mixed, 1 without resize, 2 resize-heavy
 FLAVOURS = [(2, 250), (0, 150)]
 
